@@ -1,6 +1,9 @@
 package world
 
 import (
+	"syscall"
+	"path/filepath"
+	"os/exec"
 	"context"
 	"crypto/ecdsa"
 	"crypto/elliptic"
@@ -94,6 +97,7 @@ type APIServer struct {
 	St     *Stack
 	cancel context.CancelFunc
 	Dir    string
+	proc   *exec.Cmd // external mode: the real dirk binary
 }
 
 // StartAPIServer builds a world (wallets W1 for client c1, W2 for client c2, distributed wallet DW for both) and
@@ -186,9 +190,130 @@ func StartAPIServerMode(ctx context.Context, log *Log, mode string) (*APIServer,
 
 // Stop shuts the server down.
 func (a *APIServer) Stop(ctx context.Context) {
+	if a.proc != nil {
+		_ = a.proc.Process.Kill()
+		_, _ = a.proc.Process.Wait()
+		os.RemoveAll(a.Dir)
+		return
+	}
 	a.cancel()
 	_ = a.St.Close(ctx)
 	os.RemoveAll(a.Dir)
+}
+
+// Alive reports whether the external binary is still running (always true for the in-process server).
+func (a *APIServer) Alive() bool {
+	if a.proc == nil {
+		return true
+	}
+	return a.proc.ProcessState == nil && syscall.Kill(a.proc.Process.Pid, 0) == nil
+}
+
+// StartExternalDirk prepares what the SHIPPED PROGRAM needs on disk - a filesystem wallet store with the same population as the
+// in-process world, certificate files for the given server set-up, a dirk.yml with the same permissions, peers and unlocker
+// passphrases - and starts the real dirk binary (main.go's own configuration reading and wiring) on a free local port.
+func StartExternalDirk(ctx context.Context, log *Log, mode string, binary string) (*APIServer, error) {
+	pki, err := NewPKI("verif CA")
+	if err != nil {
+		return nil, err
+	}
+	other, err := NewPKI("another CA")
+	if err != nil {
+		return nil, err
+	}
+	base, err := os.MkdirTemp("", "dirkbase")
+	if err != nil {
+		return nil, err
+	}
+	wallets := filepath.Join(base, "wallets")
+	spec := Spec{Wallets: []WalletSpec{{Name: "W1", Type: "nd", Accounts: []AccountSpec{{Name: "a0", KeyIdx: 0}, {Name: "a1", KeyIdx: 1}}},
+		{Name: "W2", Type: "nd", Accounts: []AccountSpec{{Name: "b0", KeyIdx: 2}, {Name: "b1", KeyIdx: 3}}}, {Name: "DW", Type: "distributed"}}, WalletDir: wallets}
+	if _, err := NewBase(ctx, spec, log, NewControl(log)); err != nil {
+		return nil, err
+	}
+	issuer := pki
+	if mode == "foreignchain" {
+		issuer = other
+	}
+	sder, skey, err := issuer.Issue("signer-1", true, false, false)
+	if err != nil {
+		return nil, err
+	}
+	serverPEM := certPEM(sder)
+	if mode == "samechain" || mode == "foreignchain" {
+		serverPEM = append(append([]byte{}, serverPEM...), issuer.CAPEM...)
+	}
+	l, err := net.Listen("tcp", "127.0.0.1:0")
+	if err != nil {
+		return nil, err
+	}
+	addr := l.Addr().String()
+	_ = l.Close()
+	files := map[string][]byte{"server.crt": serverPEM, "server.key": keyPEM(skey), "ca.crt": pki.CAPEM, "pass.txt": []byte("pass")}
+	for n, b := range files {
+		if err := os.WriteFile(filepath.Join(base, n), b, 0o600); err != nil {
+			return nil, err
+		}
+	}
+	_, port, _ := net.SplitHostPort(addr)
+	cfg := fmt.Sprintf(`log-level: warn
+server:
+  id: 1
+  name: signer-1
+  listen-address: %s
+certificates:
+  server-cert: file://%s/server.crt
+  server-key: file://%s/server.key
+  ca-cert: file://%s/ca.crt
+storage-path: %s/storage
+stores:
+- name: Local
+  type: filesystem
+  location: %s
+peers:
+  1: signer-1:%s
+  2: signer-2:9092
+unlocker:
+  wallet-passphrases:
+  - file://%s/pass.txt
+  account-passphrases:
+  - file://%s/pass.txt
+process:
+  generation-passphrase: file://%s/pass.txt
+  generation-timeout: 10s
+permissions:
+  c1:
+    W1: All
+    DW: All
+  c2:
+    W2: All
+`, addr, base, base, base, base, wallets, port, base, base, base)
+	if err := os.WriteFile(filepath.Join(base, "dirk.yml"), []byte(cfg), 0o600); err != nil {
+		return nil, err
+	}
+	cmd := exec.Command(binary, "--base-dir", base)
+	cmd.Env = append(os.Environ(), "HOME="+base)
+	errf, _ := os.Create(filepath.Join(base, "dirk.stderr"))
+	cmd.Stdout, cmd.Stderr = errf, errf
+	if err := cmd.Start(); err != nil {
+		return nil, err
+	}
+	a := &APIServer{Addr: addr, PKI: pki, Other: other, Dir: base, proc: cmd}
+	deadline := time.Now().Add(20 * time.Second)
+	for {
+		c, err := net.DialTimeout("tcp", addr, 200*time.Millisecond)
+		if err == nil {
+			_ = c.Close()
+			break
+		}
+		if time.Now().After(deadline) {
+			out, _ := os.ReadFile(filepath.Join(base, "dirk.stderr"))
+			a.Stop(ctx)
+			return nil, fmt.Errorf("the dirk binary did not start listening on %s: %s", addr, string(out))
+		}
+		time.Sleep(50 * time.Millisecond)
+	}
+	return a, nil
 }
 
 // Dial connects with the named credential kind.
